@@ -1915,7 +1915,7 @@ class PGPKey(Armorable, ParentRef, PGPObject):
             # RFC 4880 says that primary keys *must* be capable of certification
             return {KeyFlags.Certify} | (user.selfsig.key_flags if user.selfsig else set())
 
-        return next(self.self_signatures).key_flags
+        return list(self.self_signatures)[-1].key_flags
 
     def _sign(self, subject, sig, **prefs):
         """
